@@ -861,7 +861,8 @@ fn parse_json_filter(input: &[u8], output: &mut [u8]) -> Result<(usize, usize), 
             verify_char(input, b'[', &mut inpos)?;
             burn_array(input, &mut inpos)?;
         } else {
-            burn_key_and_value(input, &mut inpos)?;
+            // an unknown field: skip it (we are already past its opening quote)
+            burn_rest_of_key_and_value(input, &mut inpos)?;
         }
     }
 
